@@ -48,7 +48,7 @@ def close(a, b, rtol, atol):
 
 
 def diff_snapshots(sa, sb, rtol=1e-7, atol=1e-9, name_map=None, reversed_names=(), skip_cols=(), only_tables=None,
-                   col_atol=None, skip_names=(), zero_flow=1e-9):
+                   col_atol=None, skip_names=(), zero_flow=1e-9, friction_noise=2e-9):
     """List of differences between two snapshots.  *name_map* maps names of A to names of B (default
     identity).  Elements in *reversed_names* have swapped from/to in B: flows change sign, end
     columns swap.  Returns (diffs, n_values_compared, max_rel_dev)."""
@@ -56,8 +56,9 @@ def diff_snapshots(sa, sb, rtol=1e-7, atol=1e-9, name_map=None, reversed_names=(
     n = 0
     maxdev = 0.0
     col_atol = col_atol or {}
-    # Flows whose friction loss is below the round-off of the pressures (1e-12 bar) are not determined by
-    # the equations (flat zero-flow loops): their magnitude is noise, and so is every flow of that size.
+    # Flows whose friction loss is below what the solver resolves (the residual tolerance of the tight solves, 1e-9 bar)
+    # are not determined by the equations (flat zero-flow loops): their magnitude is noise, and so is every flow of
+    # that size.
     noise = 0.0
     for name, ra in sa.get("pipe", {}).items():
         nb = (name_map or {}).get(name, name)
@@ -65,7 +66,7 @@ def diff_snapshots(sa, sb, rtol=1e-7, atol=1e-9, name_map=None, reversed_names=(
         if rb is None or "dp_friction_loss_bar" not in ra:
             continue
         fa, fb = ra["dp_friction_loss_bar"], rb["dp_friction_loss_bar"]
-        if not (math.isnan(fa) or math.isnan(fb)) and abs(fa) <= 1e-12 and abs(fb) <= 1e-12:
+        if not (math.isnan(fa) or math.isnan(fb)) and abs(fa) <= friction_noise and abs(fb) <= friction_noise:
             noise = max(noise, abs(ra["mdot_from_kg_per_s"]), abs(rb["mdot_from_kg_per_s"]))
     zero_flow = max(zero_flow, 2 * noise)
     for t, rows in sa.items():
